@@ -1,6 +1,6 @@
 (* Property C06: tactical move list and perft/tperft counts agree with full legal generation (and with the rules). *)
 From Coq Require Import ZArith List Bool.
-Require Import Base Generated Position Attack Make Gen Count Perft WF MakeSpec MakeProofs GenProofs CountProofs.
+Require Import Base Generated Position Attack Make Gen Count Perft WF MakeSpec MakeProofs GenProofs CountProofs PerftProofs.
 Require Spec.
 Require Import Abs.
 Open Scope Z_scope.
@@ -26,6 +26,17 @@ Proof. exact (count_tactical_exact make_spec). Qed.
 Theorem C06_perft : forall n p, wf_legal p = true -> ply p + Z.of_nat n < 32767 -> perft n p = Ok (Spec.paths n (abs p)).
 Proof. exact (perft_exact make_spec). Qed.
 
+(* tperft: paths whose FINAL move captures or promotes (depth 0 counts like depth 1, as the engine does) *)
+Theorem C06_tperft : forall n p, (1 <= n)%nat -> wf_legal p = true -> ply p + Z.of_nat n < 32767 -> perft_tactical n p = Ok (tpaths n (abs p)).
+Proof. exact perft_tactical_exact_pos. Qed.
+(* the divide output of `perft n` / `tperft n`: one row per legal move of the rules, each once, with the exact sub-count; total exact *)
+Theorem C06_perft_divide : forall n p l, wf_legal p = true -> ply p + Z.of_nat n < 32767 -> (1 <= n)%nat -> gen_legal p = Ok l ->
+  perft_divide n p = Ok (map (fun r => (rm r, Spec.paths (n - 1) (Spec.apply (abs p) (absm (rm r))))) l, Spec.paths n (abs p)).
+Proof. exact perft_divide_exact. Qed.
+Theorem C06_tperft_divide : forall n p l, wf_legal p = true -> ply p + Z.of_nat n < 32767 -> (1 <= n)%nat -> gen_legal p = Ok l ->
+  tperft_divide n p = Ok (map (fun r => (rm r, trow n (abs p) (absm (rm r)))) l, tpaths n (abs p)).
+Proof. exact tperft_divide_exact. Qed.
+
 Example C06_example : wf_legal startpos = true /\ perft 2 startpos = Ok 400 /\ count_moves startpos = 20 /\ count_tactical startpos = 0.
 Proof. repeat split; vm_compute; reflexivity. Qed.
 
@@ -35,3 +46,6 @@ Print Assumptions C06_flag_exact.
 Print Assumptions C06_count_moves.
 Print Assumptions C06_count_tactical.
 Print Assumptions C06_perft.
+Print Assumptions C06_tperft.
+Print Assumptions C06_perft_divide.
+Print Assumptions C06_tperft_divide.
